@@ -183,7 +183,9 @@ func genesisRoundTrips(root string) {
 			continue
 		}
 		wt, bt := written.TotalBalance(), back.TotalBalance()
-		if (wt == nil) != (bt == nil) || (wt != nil && wt.Cmp(bt) != 0) {
+		// (a total of zero is stored as an empty value and reads back as "no total": the same amount)
+		zero := func(x *big.Int) bool { return x == nil || x.Sign() == 0 }
+		if zero(wt) != zero(bt) || (!zero(wt) && wt.Cmp(bt) != 0) {
 			rep["total_written"], rep["total_read"] = fmt.Sprint(wt), fmt.Sprint(bt)
 			run.Fail("genesis total balance read back by GetGenesisInfo differs from what was written", rep)
 		}
